@@ -239,3 +239,21 @@ package trie
 //@   ensures [linked] old(has(db.nodes, child)) ==> has(db.nodes[parent].children, child)
 //@   ensures [kept]   forall c common.Hash :: old(has(db.nodes[parent].children, c)) ==> has(db.nodes[parent].children, c)
 //@   ensures [same]   db.nodes[parent] == old(db.nodes[parent])
+
+// Decoding a branch node from its stored form (C02): the value slot holds exactly the CONTENT of the 17th item
+// (what SplitString hands out), not the item with its header - otherwise a reloaded value differs from the one
+// that was stored and re-hashing the branch changes the root.
+//@ func decodeRef
+//@   option trusted
+//@   modifies ghost(splitlen)
+
+//@ func wrapError
+//@   option trusted
+//@   ensures err != nil ==> result != nil
+//@   modifies nothing
+
+//@ func decodeFull
+//@   property C02
+//@   loop 0: invariant n != nil && fresh(n) && i >= 0 && i <= 16 && typeid(n.Children[16]) == 0
+//@   ensures [value]   result1 == nil && typeid(result0.Children[16]) != 0 ==> istype(result0.Children[16], valueNode) && len(unbox(result0.Children[16], valueNode)) == ghost(splitlen)
+//@   ensures [novalue] result1 == nil && typeid(result0.Children[16]) == 0 ==> ghost(splitlen) == 0
